@@ -12,7 +12,9 @@ CLAIMED = {
     "C19": ("proof", "Pin-cited reference citations: loop invariant of extract_pincited_reference_citations (every reference starts at or after the end of the full citation's "
             "span; its span/full-span/token offsets are equal and valid in the plain text), discharged for all texts; non-interference as a frame argument: syntactic read-set "
             "obligations on the real AST (markup flows only into Document and the reference extractors, which construct only references) plus filter_citations' "
-            "keeps-non-references / nothing-invented postconditions; markup offsets by SpanUpdater's in-range contract. Name containment and markup placement are bounded (stand-in) only.", "6/C19"),
+            "keeps-non-references / nothing-invented postconditions; markup-derived references: find_reference_citations_from_markup under contract (offsets valid and ordered in the "
+            "cleaned text by SpanUpdater's in-range and monotone contracts; placement after the full citation under the ASSUMED consistency of the two diffs, ROUNDTRIP). "
+            "Name containment and ROUNDTRIP itself are bounded (stand-in) only.", "6/C19"),
     "C17": ("proof", "Ghost-provenance clauses at every store site of textual metadata (pin cite, extra, year, parenthetical, plaintiff, defendant, antecedent, "
             "publisher, month, day): the stored value is a substring of the window text[a:b] it was matched in and a, b lie inside the citation's full span; the "
             "extracted plaintiff sits exactly at the full-span start; parties/year are copied from a preceding citation only when both full spans start at the same "
@@ -29,7 +31,8 @@ CLAIMED = {
             "modes and both diff engines (under E-DIFF), together with SpanUpdater's class invariant and maybe_balance_style_tags' slice contract.", "6/C09"),
     "C10": ("proof", "SpanUpdater.__init__ establishes the range invariant UPD from any diff satisfying E-DIFF; update() stays within the source for both bisect "
             "variants; in 'unchecked' mode without a source every non-overlapping non-empty span is emitted exactly once as before+text[start:end]+after in "
-            "span order (two-state step clause). Clause C and monotonicity are bounded (stand-in) only.", "6/C10"),
+            "span order (two-state step clause); monotonicity of the translation is proved as closed lemmas over the functional contract of update() (exact-value "
+            "postcondition + global order clauses of the class invariant). Clause C (forced alignment) is bounded (stand-in) only.", "6/C10"),
     "C11": ("proof", "Guards of the tag-handling modes as two-state step clauses of the annotate loop: 'skip' emits only spans that passed the balance test (also "
             "after the style-tag repair), 'wrap' omits an annotation only when fully covered; text content unchanged (C09's invariant). The step from these to "
             "'the output parses' is the assumed lemma L-XML; the parse itself is bounded (stand-in, lxml as judge).", "6/C11"),
@@ -45,7 +48,8 @@ CLAIMED = {
             "constructs or extends a citation's offsets (match_on_tokens window contract WIN, extract_pin_cite, add_post_citation, add_defendant, "
             "add_pre_citation, add_law/journal_metadata, the add_metadata chain, _extract_full/shortform/supra/id_citation), for all texts under the token-partition precondition PART.", "6/C02"),
     "C06": ("proof", "All obligations of the ten resolve.py functions (quantified loop invariant with ghost res/pos/src/fidx on resolve_citations, "
-            "uniqueness contracts of the five resolvers) are discharged for all citation lists of any length; no bound.", "6/C06"),
+            "uniqueness contracts of the five resolvers) are discharged for all citation lists of any length; no bound. 'Equal' is tied to the statement's "
+            "(normalised volume, reporter, page; placeholder pages identical only to themselves) by the hash-term model of C16 and the contract of corrected_reporter().", "6/C06"),
     "C07": ("proof", "Uniqueness ('never guesses') postconditions of the resolvers written from the statement, the pin-cite window of "
             "_has_invalid_pin_cite, and the last_is_prev loop invariant, discharged for all inputs; iteration order of sets is unspecified in the model.", "6/C07"),
     "C08": ("proof", "Online-ness reduced to one-run obligations on the resolver loop: two-state step clauses (append-only, at most the current "
